@@ -85,13 +85,18 @@ def invariant_multi(st, arrivals, cap, targets, kind):
 
 
 def drive_multi(kind, k, p, tg, n, rnd, style):
-    st, cap = make(kind, k, p, tg)
+    import numpy as np
+    kk = rnd.choice([k, np.int64(k), np.uint8(k), np.int32(k)]) if k else k       # capacities given as NumPy integers
+    st, cap = make(kind, kk, p, tg)
+    cap = int(cap)
     arrivals, prev = [], None
     for i in range(n):
         if style == "repeat-object" and prev is not None and rnd.random() < 0.4:
             x = prev if rnd.random() < 0.7 else arrivals[rnd.randrange(len(arrivals))][0]
         elif style == "dup-values":
             x = {"t": i % 2, "v": 0}
+        elif style == "odd-records" and i % 6 == 4:
+            x = ("record", i)                 # not a dict: the storages do not look inside observations
         else:
             x = {"t": i, "v": i * i}
         y = ("y", i)
@@ -124,7 +129,10 @@ def drive(kind, k, p, tg, n, every=1, outcomes=None):
         x, y = {"t": i, "v": i * i}, ("y", i)
         arrivals.append((x, y))
         pos[id(x)] = i
-        st.update(x, y)
+        if i % 5 == 2:
+            st.update(x=x, y=y)          # keyword form (the explainers' own update_storage uses it)
+        else:
+            st.update(x, y)
         if i % every == 0 or i == n - 1:
             out = invariant(st, arrivals, pos, cap, tg, kind)
             evals += 1
@@ -209,7 +217,7 @@ def main(run):
                 for o in outs:
                     run.nontriv(("det", k, tg, o))
     # ---- repeated objects / equal-valued observations (identity-based multiset invariant)
-    for style in ("repeat-object", "dup-values"):
+    for style in ("repeat-object", "dup-values", "odd-records"):
         for kind, k, p in (("interval", 1, None), ("interval", 3, None), ("sequence", 1, None), ("batch", 0, None),
                            ("geometric", 2, 0.7), ("geometric", 4, 1.0), ("geometric", 5, None), ("uniform", 3, None), ("uniform", 1, None)):
             for tg in (True, False):
